@@ -137,9 +137,12 @@ Definition step (c : cfg) (t : nat) : cfg :=
 
 Definition run (c : cfg) (sched : list nat) : cfg := fold_left step sched c.
 
-Definition init (progs : list (list kind)) : cfg :=
-  {| rin := 0; rout := 0; win := 0; wout := 0;
+(* a quiescent lock that has already served [a] read cycles and [b] write cycles
+   (parsec_atomic_rwlock_init gives a = b = 0), and threads about to run [progs] *)
+Definition init_at (a b : Z) (progs : list (list kind)) : cfg :=
+  {| rin := wrap (RINC * a); rout := wrap (RINC * a); win := wrap b; wout := wrap b;
      thrs := map (at_pc PStart) progs; log := [] |}.
+Definition init (progs : list (list kind)) : cfg := init_at 0 0 progs.
 
 (* ---- observations ------------------------------------------------------- *)
 Definition is_done (th : thr) : bool := match t_pc th with PDone => true | _ => false end.
@@ -155,6 +158,8 @@ Definition enabled (c : cfg) (th : thr) : bool :=
   | PWr tk => rout c =? tk
   | _ => true
   end.
+Definition is_wait (th : thr) : bool :=
+  match t_pc th with PRw _ | PWw _ | PWr _ => true | _ => false end.
 Definition enabled_at (c : cfg) (t : nat) : bool :=
   match nth_error (thrs c) t with Some th => enabled c th | None => false end.
 
